@@ -107,6 +107,7 @@ fn run_steered(bin: &Path, scratch: &Path, xdg: &Path, specs: &[Spec], d: &mut D
     };
     let sock = dir.sock_path.to_string_lossy().into_owned();
     let xdg_s = xdg.to_string_lossy().into_owned();
+    let tmp_s = tmp_dir_for(xdg);
     let deadline = Instant::now() + WATCHDOG;
     let mut procs: Vec<Proc> = vec![];
     let mut spec_of: Vec<usize> = vec![];
@@ -231,6 +232,7 @@ fn run_steered(bin: &Path, scratch: &Path, xdg: &Path, specs: &[Spec], d: &mut D
                 let sp = &specs[si];
                 let mut env: Vec<(&str, &str)> = vec![
                     ("XDG_CACHE_HOME", xdg_s.as_str()),
+                    ("TMPDIR", tmp_s.as_str()),
                     ("NO_GRAPHICS", "1"),
                     ("NO_COLOR", "1"),
                     ("RUST_BACKTRACE", "0"),
@@ -587,9 +589,7 @@ fn two_projects(ctx: &Ctx, d: &mut Draw) -> Outcome {
     let _ = std::fs::create_dir_all(&ws.xdg);
     let mut fails: Vec<(String, String)> = vec![];
     for (i, sp) in specs.iter().enumerate() {
-        if i < 2 || !fails.is_empty() {
-            // (the third process shares A's directory: its reference runs on A's clean state too)
-        }
+        // (the third process shares A's directory: its reference runs on A's clean state too)
         wipe_project(&sp.root);
         let r = veryl_at(&ws.bin, &sp.root, &ws.xdg, &sp.cmd.args(), &[], ws.timeout);
         if r.timed_out || !(r.code == Some(0)) {
@@ -641,66 +641,83 @@ fn two_projects(ctx: &Ctx, d: &mut Draw) -> Outcome {
 
 // ------------------------------------------------------------- build ‖ LS
 
-enum LsEnd {
-    Done(OpenDoc),
-    /// the server sleeps in flock(2)
-    Flock(OpenDoc),
-    Watchdog(OpenDoc, String),
+enum LsWait {
+    Done,
+    /// the server sleeps in flock(2); pid of the lock holder (0 = unknown)
+    Flock(u32),
+    Watchdog,
     Died(String),
 }
 
-/// Drive a language server through "initialize, open file, final diagnostics".
-/// Its own verification points (if steered) are released at once.
-fn ls_open(ws: &Workspace, dir: Option<&mut Director>, file_rel: &str, text: &str, patience: Duration) -> LsEnd {
-    let ls_bin = vcore::util::repo_bin("veryl-ls");
-    let sock;
-    let mut env: Vec<(&str, &str)> = vec![];
-    if let Some(d) = &dir {
-        sock = d.sock_path.to_string_lossy().into_owned();
-        env.push(("VERYL_VERIF_SOCK", sock.as_str()));
+struct LsSession {
+    ls: Ls,
+    doc: OpenDoc,
+}
+
+impl LsSession {
+    /// Start a language server and send "initialize"; `dir`: steer it too (its
+    /// own verification points are released at once by `drive`).
+    fn start(ws: &Workspace, dir: Option<&Director>, file_rel: &str, text: &str) -> Result<LsSession, String> {
+        let ls_bin = vcore::util::repo_bin("veryl-ls");
+        let sock;
+        let mut env: Vec<(&str, &str)> = vec![];
+        if let Some(d) = dir {
+            sock = d.sock_path.to_string_lossy().into_owned();
+            env.push(("VERYL_VERIF_SOCK", sock.as_str()));
+        }
+        let mut ls = Ls::spawn(&ls_bin, &ws.root, &ws.xdg, &env).map_err(|e| format!("spawn veryl-ls: {e}"))?;
+        let mut doc = OpenDoc::new(&ws.root, file_rel, text);
+        doc.start(&mut ls);
+        Ok(LsSession { ls, doc })
     }
-    let mut ls = match Ls::spawn(&ls_bin, &ws.root, &ws.xdg, &env) {
-        Ok(l) => l,
-        Err(e) => return LsEnd::Died(format!("spawn veryl-ls: {e}")),
-    };
-    let mut doc = OpenDoc::new(&ws.root, file_rel, text);
-    doc.start(&mut ls);
-    let deadline = Instant::now() + patience;
-    let mut dir = dir;
-    let mut flock_seen = 0u32;
-    loop {
-        if let Some(d) = dir.as_deref_mut() {
-            d.poll();
-            if let Some(q) = d.release(ls.pid, false) {
-                doc.trace.push(format!("ls point {} {}", q.name, q.path.rsplit('/').next().unwrap_or("")));
+
+    /// Pump the conversation "initialize, didOpen, final diagnostics" until it is
+    /// complete, the server is found sleeping in flock(2), or `patience` is over.
+    fn drive(&mut self, mut dir: Option<&mut Director>, patience: Duration) -> LsWait {
+        let deadline = Instant::now() + patience;
+        let mut flock_seen = 0u32;
+        loop {
+            if self.doc.done() {
+                return LsWait::Done;
             }
-        }
-        match ls.try_recv(Duration::from_millis(2)) {
-            Recv::Msg(m) => {
-                doc.feed(&mut ls, &m);
-                if doc.done() {
-                    return LsEnd::Done(doc);
+            if let Some(d) = dir.as_deref_mut() {
+                d.poll();
+                if let Some(q) = d.release(self.ls.pid, false) {
+                    self.doc.trace.push(format!("ls point {} {}", q.name, q.path.rsplit('/').next().unwrap_or("")));
                 }
-                continue;
             }
-            Recv::Closed => {
-                return LsEnd::Died(format!("veryl-ls closed its output; stderr: {}", ls.stderr_text()));
+            match self.ls.try_recv(Duration::from_millis(2)) {
+                Recv::Msg(m) => {
+                    self.doc.feed(&mut self.ls, &m);
+                    flock_seen = 0;
+                    continue;
+                }
+                Recv::Closed => {
+                    return LsWait::Died(format!("veryl-ls closed its output; stderr: {}", self.ls.stderr_text()));
+                }
+                Recv::Timeout => {}
             }
-            Recv::Timeout => {}
-        }
-        if flock_waiters().contains(&ls.pid) {
-            // seen twice in a row with nothing received in between: it sleeps there
-            flock_seen += 1;
-            if flock_seen >= 3 {
-                return LsEnd::Flock(doc);
+            if let Some(holder) = flock_wait_map().get(&self.ls.pid) {
+                // seen several times in a row with nothing received in between
+                flock_seen += 1;
+                if flock_seen >= 3 {
+                    return LsWait::Flock(*holder);
+                }
+            } else {
+                flock_seen = 0;
             }
-        } else {
-            flock_seen = 0;
+            if Instant::now() > deadline {
+                return LsWait::Watchdog;
+            }
         }
-        if Instant::now() > deadline {
-            let alive = ls.alive();
-            return LsEnd::Watchdog(doc, format!("alive: {alive}; stderr: {}", ls.stderr_text()));
-        }
+    }
+
+    /// No CPU time consumed over an interval: the server is not computing.
+    fn idle(&mut self) -> bool {
+        let a = cpu_ticks(self.ls.pid);
+        std::thread::sleep(Duration::from_secs(3));
+        let b = cpu_ticks(self.ls.pid);
+        a.is_some() && a == b
     }
 }
 
@@ -748,10 +765,18 @@ fn build_ls(ctx: &Ctx, d: &mut Draw) -> Outcome {
     };
     ws.save_state("s");
     // ---- references: the language server alone, the build alone (counting its points)
-    let solo = match ls_open(&ws, None, &file_rel, &file_text, Duration::from_secs(240)) {
-        LsEnd::Done(doc) => doc,
-        LsEnd::Watchdog(..) | LsEnd::Flock(..) => return Outcome::skip("inconclusive: the language server alone did not answer within the watchdog"),
-        LsEnd::Died(e) => return Outcome::skip(format!("the language server alone died (C07/C11's domain): {}", e.chars().take(60).collect::<String>())),
+    let solo = {
+        let mut s = match LsSession::start(&ws, None, &file_rel, &file_text) {
+            Ok(s) => s,
+            Err(e) => return Outcome::skip(format!("inconclusive: {e}")),
+        };
+        match s.drive(None, Duration::from_secs(240)) {
+            LsWait::Done => s.doc,
+            LsWait::Watchdog | LsWait::Flock(_) => return Outcome::skip("inconclusive: the language server alone did not answer within the watchdog"),
+            LsWait::Died(e) => {
+                return Outcome::skip(format!("the language server alone died (C07/C11's domain): {}", e.chars().take(60).collect::<String>()));
+            }
+        }
     };
     ws.restore_state("s", false);
     strip_to_sources(&ws);
@@ -779,8 +804,10 @@ fn build_ls(ctx: &Ctx, d: &mut Draw) -> Outcome {
     };
     let sock = dir.sock_path.to_string_lossy().into_owned();
     let xdg_s = ws.xdg.to_string_lossy().into_owned();
+    let tmp_s = tmp_dir_for(&ws.xdg);
     let env = [
         ("XDG_CACHE_HOME", xdg_s.as_str()),
+        ("TMPDIR", tmp_s.as_str()),
         ("NO_GRAPHICS", "1"),
         ("NO_COLOR", "1"),
         ("RUST_BACKTRACE", "0"),
@@ -817,7 +844,7 @@ fn build_ls(ctx: &Ctx, d: &mut Draw) -> Outcome {
         pre.iter().any(|q| q.name == "store:before-read-manifest")
     };
     // ---- the language server while the build is held
-    let end = ls_open(&ws, Some(&mut dir), &file_rel, &file_text, Duration::from_secs(150));
+    let build_pid = procs[0].pid;
     let text = format!(
         "{}\nveryl build held at point {k}/{} = {} {held_rel} (holds .build/lock: {holds_build_lock}, cache lock: {holds_cache_lock}); veryl-ls: initialize, didOpen {file_rel}",
         desc.join("\n"),
@@ -839,33 +866,57 @@ fn build_ls(ctx: &Ctx, d: &mut Draw) -> Outcome {
             }
         }
     };
-    let doc = match end {
-        LsEnd::Done(doc) => doc,
-        LsEnd::Died(e) => {
+    let mut sess = match LsSession::start(&ws, Some(&dir), &file_rel, &file_text) {
+        Ok(s) => s,
+        Err(e) => return Outcome::skip(format!("inconclusive: {e}")),
+    };
+    match sess.drive(Some(&mut dir), Duration::from_secs(150)) {
+        LsWait::Done => {}
+        LsWait::Died(e) => {
             return Outcome::fail(
                 "build-ls/server-died",
                 format!("the language server died while a build was paused (alone it answers): {e}\n{text}"),
                 json!({"case": text}),
             );
         }
-        LsEnd::Flock(doc) => {
-            // it sleeps in flock(2) while the only other lock holder is the paused build
-            return Outcome::fail(
-                "build-ls/server-waits-for-build-lock",
-                format!("the language server sleeps in flock(2) (seen in /proc/locks) while the build is held paused; answers so far: {}\n{text}\nls trace: {:?}", doc.publishes, doc.trace),
-                json!({"case": text, "ls_trace": doc.trace}),
-            );
-        }
-        LsEnd::Watchdog(doc, why) => {
-            // distinguish "waits for the build" from "never answers": release the build
-            let _ = doc;
+        LsWait::Flock(holder) => {
+            // it sleeps in flock(2); the holder must be the paused build; then
+            // the answer must come once the build is released
+            let answers_before = sess.doc.publishes;
             let released = finish_build(&mut dir, &mut procs);
-            return Outcome::skip(format!(
-                "inconclusive: no final answer from the language server within the watchdog while the build was held (build finished after release: {released}); {}",
-                why.chars().take(40).collect::<String>()
-            ));
+            let after = sess.drive(Some(&mut dir), Duration::from_secs(150));
+            if holder == build_pid && released && matches!(after, LsWait::Done) {
+                return Outcome::fail(
+                    "build-ls/server-waits-for-build-lock",
+                    format!(
+                        "the language server slept in flock(2) on a lock held by the paused build (pid {holder}, /proc/locks) and completed didOpen only after the build was released; diagnostics published before: {answers_before}\n{text}\nls trace: {:?}",
+                        sess.doc.trace
+                    ),
+                    json!({"case": text, "ls_trace": sess.doc.trace}),
+                );
+            }
+            return Outcome::skip("inconclusive: the language server slept in flock(2), but holder / completion after release could not be confirmed");
         }
-    };
+        LsWait::Watchdog => {
+            // "waits for the build" or "just slow / never answers"?  Only an idle
+            // server that answers once the build is released is a violation.
+            let idle = sess.idle();
+            let released = finish_build(&mut dir, &mut procs);
+            let after = sess.drive(Some(&mut dir), Duration::from_secs(150));
+            if idle && released && matches!(after, LsWait::Done) {
+                return Outcome::fail(
+                    "build-ls/answer-only-after-build-released",
+                    format!(
+                        "no final diagnostics within 150 s while the build was held, the server consumed no CPU time meanwhile, and it completed didOpen after the build was released\n{text}\nls trace: {:?}",
+                        sess.doc.trace
+                    ),
+                    json!({"case": text, "ls_trace": sess.doc.trace}),
+                );
+            }
+            return Outcome::skip("inconclusive: no final answer from the language server within the watchdog while the build was held");
+        }
+    }
+    let doc = &sess.doc;
     // ---- the server's answer must be the one it gives alone
     if doc.diag_lines() != solo.diag_lines() {
         return Outcome::fail(
@@ -923,8 +974,10 @@ fn stress(ctx: &Ctx, d: &mut Draw) -> Outcome {
         plan.push((root, if d.chance(1, 3) { Cmd::Check } else { Cmd::Build }));
     }
     let xdg_s = ws.xdg.to_string_lossy().into_owned();
+    let tmp_s = tmp_dir_for(&ws.xdg);
     let env = [
         ("XDG_CACHE_HOME", xdg_s.as_str()),
+        ("TMPDIR", tmp_s.as_str()),
         ("NO_GRAPHICS", "1"),
         ("NO_COLOR", "1"),
         ("RUST_BACKTRACE", "0"),
@@ -1023,13 +1076,13 @@ pub fn run(ctx: &Ctx) {
         std::process::exit(2);
     }
     let dev = |k: &str, dflt: usize| std::env::var(k).ok().and_then(|x| x.parse().ok()).unwrap_or(dflt);
-    let n_same = dev("VERIF_C30_SAME", ctx.scale(64, 4000));
-    let n_two = dev("VERIF_C30_TWO", ctx.scale(24, 1500));
-    let n_ls = dev("VERIF_C30_LS", ctx.scale(32, 2000));
-    let n_stress = dev("VERIF_C30_STRESS", ctx.scale(12, 400));
-    ctx.run("two-projects", CaseCfg::cases(n_two).choices(400).timeout_s(1500).shrink_iters(40), |d| two_projects(ctx, d));
-    ctx.run("same-project", CaseCfg::cases(n_same).choices(900).timeout_s(1500).shrink_iters(40), |d| same_project(ctx, d));
-    ctx.run("build-ls", CaseCfg::cases(n_ls).choices(900).timeout_s(1500).shrink_iters(20).stack_mb(8), |d| build_ls(ctx, d));
+    let n_same = dev("VERIF_C30_SAME", ctx.scale(128, 6000));
+    let n_two = dev("VERIF_C30_TWO", ctx.scale(48, 2000));
+    let n_ls = dev("VERIF_C30_LS", ctx.scale(64, 3000));
+    let n_stress = dev("VERIF_C30_STRESS", ctx.scale(24, 600));
+    ctx.run("two-projects", CaseCfg::cases(n_two).choices(400).timeout_s(1500).shrink_iters(6), |d| two_projects(ctx, d));
+    ctx.run("same-project", CaseCfg::cases(n_same).choices(900).timeout_s(1500).shrink_iters(12), |d| same_project(ctx, d));
+    ctx.run("build-ls", CaseCfg::cases(n_ls).choices(900).timeout_s(1500).shrink_iters(6), |d| build_ls(ctx, d));
     ctx.run("stress", CaseCfg::cases(n_stress).choices(64).timeout_s(1500).shrink_iters(0), |d| stress(ctx, d));
     ctx.note("std_race_class_excluded_cases", json!(AVOIDED.load(Ordering::Relaxed)));
     ctx.note("processes_started_while_info_toml_half_written", json!(INFO_HALF_READ.load(Ordering::Relaxed)));
